@@ -385,8 +385,20 @@ fn ms_dec(bs: &[u8]) -> String {
                 Ok(h) => ms_fields(&h),
                 Err(_) => "err".to_string(),
             };
-            if a == t && t == f {
+            // derived accessors of the slice must agree with those of the decoded struct (they read the
+            // same 6 bit short length / TCI bits; reserved bits of byte 1 must not leak into them)
+            let h = s.to_header();
+            let derived_ok = s.expected_payload_len() == h.expected_payload_len()
+                && s.header_len() == h.header_len()
+                && s.next_ether_type() == h.next_ether_type();
+            if a == t && t == f && derived_ok {
                 a
+            } else if !derived_ok {
+                format!(
+                    "DIFF(derived: slice epl={:?} hl={} net={:?} | struct epl={:?} hl={} net={:?})",
+                    s.expected_payload_len(), s.header_len(), s.next_ether_type().map(|e| e.0),
+                    h.expected_payload_len(), h.header_len(), h.next_ether_type().map(|e| e.0)
+                )
             } else {
                 format!("DIFF({}|{}|{})", a, t, f)
             }
